@@ -9,6 +9,10 @@ SNIPPETS = [
     'VAR a 1\n$STRING a', '$STRING a', 'REM note\nSTRING y', 'ALTCHAR 65', 'REPEAT i,2\n    $STRING i', 'PRINT p\nSTRING q', 'DEFAULT_DELAY 5\nDELAY 1', '$DELAY 2*3',
     'GUI xx', '$STRING (1', 'RUN nosuch', 'STRING a\n  STRING b', 'EXIST a', 'VAR TRUE 1', 'CTRL c\n$CTRL "v"\nCTRL x', 'ENTER\n$ENTER 2\nENTER', 'WHITESPACE 2',
     'FOO\n    a\n    b', '$FOO\n    1\n    2', 'FOO 1+1', 'STRINGLN z z ', 'FUNC g a\n    $STRING a*2\nRUN g 4', 'WHILE c,c<2\n    $STRING c',
+    # loops left or skipped before anything was output, followed by commands whose result is a plain list of lines (IGNORE bodies, the
+    # old block-less REPEAT n line), and loops left after some output
+    'REPEAT 3\n    BREAKLOOP\nIGNORE\n    raw line\nSTRING after', 'WHILE TRUE\n    BREAK_LOOP\nSTRING a\nREPEAT 2', 'REPEAT 2\n    CONTINUE\nIGNORE\n    """\n    kept\n    """',
+    'REPEAT 2\n    STRING in\n    BREAKLOOP\nSTRING out', 'FUNC f\n    REPEAT 1\n        CONTINUELOOP\n    IGNORE\n        x y\nRUN f\nRUN f', 'WHILE w,w<2\n    IF w==1\n        BREAKLOOP\n    STRING t',
 ]
 OPTS = [None, {}, dict(include_comments=True), dict(flipper_commands=False), dict(supress_command_not_exist=True), dict(stack_limit=5), dict(include_comments=True, stack_limit=7)]
 
